@@ -716,15 +716,14 @@ Proof.
   set (r1 := if type_applies (s_types s) 0 then r_inc (merge r0 (Some (type_validate N p (s_types s) false 0 d))) else r0).
   assert (Hr1 : r_valid r1 = type_ok N s d).
   { unfold r1, type_ok. rewrite <- Ht. destruct (type_applies (s_types s) 0); [rewrite r_valid_inc, r_valid_merge, Hr0; reflexivity | exact Hr0]. }
-  assert (Henum' : forall r6, r_valid (r_inc (merge r6 (common_validate N p s d))) = r_valid r6 && enum_ok N s d).
-  { intros r6. rewrite r_valid_inc, r_valid_merge, <- He. destruct (common_validate N p s d); reflexivity. }
   destruct d as [|b|x|d32 f| | |id l| |id m]; try (exfalso; exact Hd).
   - (* boolean *)
     cbv beta iota zeta. fold r0. fold r1. rewrite Hx2. cbn [bind is_string_kind is_number_kind is_slice_kind is_map_kind format_applies andb].
-    eexists. split; [reflexivity|]. cbn [numeric_ok string_ok array_ok object_ok]. rewrite r_valid_inc, Henum', r_valid_inc, r_valid_merge, Hr1.
-    change (all_opt [Some (type_ok N s (VBool b)); Some (enum_ok N s (VBool b)); Some true; Some true; Some true; Some true; Some (r_valid x2)])
-      with (Some (type_ok N s (VBool b) && (enum_ok N s (VBool b) && (true && (true && (true && (true && (r_valid x2 && true)))))))).
-    f_equal. btauto.
+    eexists. split; [reflexivity|]. cbn [numeric_ok string_ok array_ok object_ok].
+    repeat (rewrite r_valid_inc || rewrite r_valid_merge). rewrite Hr1, He.
+    match goal with |- all_opt [Some ?a; Some ?b; Some true; Some true; Some true; Some true; Some ?e] = _ =>
+      change (all_opt [Some a; Some b; Some true; Some true; Some true; Some true; Some e]) with (Some (a && (b && (true && (true && (true && (true && (e && true))))))))
+    end. f_equal. btauto.
   - (* string *)
     pose proof (string_agree p s x Hpat) as Hs.
     cbv beta iota zeta. fold r0. fold r1. rewrite Hx2. cbn [bind is_string_kind is_number_kind is_slice_kind is_map_kind].
@@ -732,14 +731,15 @@ Proof.
     { unfold format_validate. destruct (o_fmt_check OR (s_format s) x); eexists; reflexivity. }
     destruct Hfv as [xf Hxf]. rewrite Hxf in *.
     destruct (format_applies OR s (VStr x)) eqn:Ea; cbn [bind]; (eexists; split; [reflexivity|]);
-      cbn [numeric_ok array_ok object_ok]; rewrite r_valid_inc, Henum', !r_valid_inc, !r_valid_merge, Hr1, <- Hs;
+      cbn [numeric_ok array_ok object_ok]; repeat (rewrite r_valid_inc || rewrite r_valid_merge); rewrite Hr1, He, <- Hs;
       match goal with |- all_opt [Some ?a; Some ?b; Some true; Some ?c; Some true; Some true; Some ?e] = _ =>
         change (all_opt [Some a; Some b; Some true; Some c; Some true; Some true; Some e]) with (Some (a && (b && (true && (c && (true && (true && (e && true))))))))
       end; f_equal; destruct (string_validate OR p s (VStr x)); btauto.
   - (* number *)
     cbn [jd] in Hd. pose proof (number_agree p s d32 f Hd) as Hn.
     cbv beta iota zeta. fold r0. fold r1. rewrite Hx2. cbn [bind is_string_kind is_number_kind is_slice_kind is_map_kind format_applies andb].
-    eexists. split; [reflexivity|]. cbn [string_ok array_ok object_ok]. rewrite r_valid_inc, Henum', !r_valid_inc, !r_valid_merge, Hr1, Hn.
+    eexists. split; [reflexivity|]. cbn [string_ok array_ok object_ok].
+    repeat (rewrite r_valid_inc || rewrite r_valid_merge). rewrite Hr1, He, Hn.
     match goal with |- all_opt [Some ?a; Some ?b; Some ?c; Some true; Some true; Some true; Some ?e] = _ =>
       change (all_opt [Some a; Some b; Some c; Some true; Some true; Some true; Some e]) with (Some (a && (b && (c && (true && (true && (true && (e && true))))))))
     end. f_equal. btauto.
@@ -747,7 +747,7 @@ Proof.
     apply jd_arr in Hd. destruct (slice_agree p s id l K Harr Hd) as [xs [Hxs Ha]].
     cbv beta iota zeta. fold r0. fold r1. rewrite Hx2. cbn [bind is_string_kind is_number_kind is_slice_kind is_map_kind format_applies andb].
     rewrite Hxs. cbn [bind]. eexists. split; [reflexivity|]. rewrite Ha. cbn [numeric_ok string_ok object_ok].
-    rewrite r_valid_inc, Henum', !r_valid_inc, !r_valid_merge, Hr1.
+    repeat (rewrite r_valid_inc || rewrite r_valid_merge). rewrite Hr1, He.
     match goal with |- all_opt [Some ?a; Some ?b; Some true; Some true; Some ?c; Some true; Some ?e] = _ =>
       change (all_opt [Some a; Some b; Some true; Some true; Some c; Some true; Some e]) with (Some (a && (b && (true && (true && (c && (true && (e && true))))))))
     end. f_equal. btauto.
@@ -755,7 +755,7 @@ Proof.
     destruct Hcomp as [_ Hdeps]. destruct (object_agree p s id m K Hobj Hdeps Hd) as [xo [Hxo Ho]].
     cbv beta iota zeta. fold r0. fold r1. rewrite Hx2. cbn [bind is_string_kind is_number_kind is_slice_kind is_map_kind format_applies andb].
     rewrite Hxo. cbn [bind]. eexists. split; [reflexivity|]. rewrite Ho. cbn [numeric_ok string_ok array_ok].
-    rewrite !r_valid_inc, !r_valid_merge, Henum', !r_valid_inc, !r_valid_merge, Hr1.
+    repeat (rewrite r_valid_inc || rewrite r_valid_merge). rewrite Hr1, He.
     match goal with |- all_opt [Some ?a; Some ?b; Some true; Some true; Some true; Some ?c; Some ?e] = _ =>
       change (all_opt [Some a; Some b; Some true; Some true; Some true; Some c; Some e]) with (Some (a && (b && (true && (true && (true && (c && (e && true))))))))
     end. f_equal. btauto.
